@@ -7,6 +7,7 @@ from hypothesis import strategies as st
 from .. import arr as A
 from .. import unit as U
 from .. import modelslice as MS
+from ..core import drive_enum
 from ..core import sstr, Failure, drive
 from ..gen import arrays as G
 
@@ -91,7 +92,9 @@ def monotone_kind(cmd, params):
 def check_monotone(o, sig):
     arr, res = o.arrays[0], o.result
     m = numpy.ma.getmaskarray(arr) | numpy.ma.getmaskarray(res)
-    xs = numpy.ma.getdata(arr)[~m].astype(float)
+    xs = numpy.ma.getdata(arr)[~m]
+    if xs.dtype.kind not in "iu":
+        xs = xs.astype(float)  # (64-bit integers are compared as they are: beyond 2^53 neighbours collapse as doubles)
     ys = numpy.ma.getdata(res)[~m].astype(float)
     if len(xs) < 2:
         return []
@@ -191,6 +194,21 @@ def check_model(model, rec):
 PARTS = {"unit": check_unit, "model": check_model}
 
 
+def big_integer_cases():
+    """64-bit integers beyond 2^53 (time stamps in nanoseconds, parcel ids): neighbours that collapse as doubles.  The
+    threshold test and the category lookup only compare their cells, so they are exact on them."""
+    base = 2 ** 53
+    cells = [base + 1, base + 3, base + 5, base + 7, base + 4, -(base + 3)]
+    arr = {"data": cells, "mask": [0, 0, 0, 0, 0, 1], "dtype": "int64"}
+    for thr in (base + 2, base + 3, base + 4, base + 5, base + 7, base + 8):
+        for direction in ("LowToHigh", "HighToLow"):
+            yield {"cmd": "CvtToBinary", "params": {"Threshold": thr, "Direction": direction}, "arrays": [arr], "shape": [6]}
+    for cmd, vals, dflt in (("NormalizeCat", "NormalValues", "DefaultNormalValue"), ("CvtToFuzzyCat", "FuzzyValues", "DefaultFuzzyValue")):
+        for raws in ([base + 3, base + 5], [base + 4, base + 2, base + 7], [base + 1]):
+            yield {"cmd": cmd, "params": {"RawValues": raws, vals: [0.5, -0.5, 0.25][:len(raws)], dflt: -1}, "arrays": [arr], "shape": [6]}
+
+
 def run_shard(ctx, rec):
+    drive_enum(ctx, rec, "unit", big_integer_cases(), check_unit, exhaustive=True, tag="unit/big_integers")
     drive(ctx, rec, "model", MS.model_cases(cmds=CMDS + ["Copy", "Sum"]), check_model, ctx.n(1000, 20000))
     drive(ctx, rec, "unit", G.unit_case(CMDS, max_rank=2, min_cells=2, two_distinct=True, close=True), check_unit, ctx.n(6000, 200000))
